@@ -257,6 +257,9 @@ void
 #endif
 		}
 
+#ifdef SLU_MT_VERIF
+		for (jj = jcol; jj < jcol + w; ++jj) SLU_MT_VERIF_EVENT(3, pnum, jj, jcol, 0);
+#endif
 		/* Release the whole relaxed supernode */
 		for (jj = jcol; jj < jcol + w; ++jj) 
 		    pxgstrf_shared->spin_locks[jj] = 0;
@@ -359,6 +362,8 @@ void
 #endif
 			}
 
+		    SLU_MT_VERIF_EVENT(10, pnum, jj, pivrow, jcol);
+		    SLU_MT_VERIF_EVENT(3, pnum, jj, jcol, 1);
                     /* release column "jj", so that the other processes
                        waiting for this column can proceed */
 		    pxgstrf_shared->spin_locks[jj] = 0;
@@ -369,10 +374,12 @@ void
 				     perm_r, &dense[k], pxgstrf_shared)) )
 		      return 0;
 
+		    SLU_MT_VERIF_EVENT(12, pnum, jj, jcol, 0);
 		    /* Prune columns [0:jj-1] using column jj */
 		    pxgstrf_pruneL(jj, perm_r, pivrow, nseg, segrep,
 				   &repfnz[k], xprune, ispruned, Glu);
 
+		    SLU_MT_VERIF_EVENT(13, pnum, jj, jcol, 0);
 		    /* Reset repfnz[] for this column */
 		    pxgstrf_resetrep_col (nseg, segrep, &repfnz[k]);
 
@@ -390,6 +397,7 @@ void
 		
 	    } /* else regular panel ... */
 	    
+	    SLU_MT_VERIF_EVENT(4, pnum, jcol, w, 0);
 	    STATE( jcol ) = DONE; /* Release panel jcol. */
 	    
 #ifdef PROFILE
@@ -411,6 +419,7 @@ void
 	
     } /* while there are more panels */
 
+    SLU_MT_VERIF_EVENT(11, pnum, singular, 0, 0);
     *info = singular;
 
     /* Free work space and compress storage */
